@@ -210,6 +210,11 @@ def laterFail (ev : List Ev) : Bool :=
       | _ => true
 
 def ok (t : Trace) : Bool := replyIntegrity t.ev && nothingPendingAfterEnd t.ev && laterFail t.ev
+
+/-- on settled traces (the script's closing sequence released every gate and let every timer fire, and no
+    hook is waiting for a gate): every operation has returned - nobody waits forever, whether or not the
+    actor has ended -/
+def okSettled (t : Trace) : Bool := ok t && (pendingOps t.ev).isEmpty
 end C03
 
 /-! ### C04 — hooks in order -/
@@ -499,7 +504,25 @@ def occupancyAt (ev : List Ev) (n : Nat) : Nat :=
 def bound (t : Trace) : Bool :=
   (List.range (t.ev.length + 1)).all fun n => decide (occupancyAt t.ev n ≤ t.cap)
 
-def ok (t : Trace) : Bool := bound t
+def closedSign : Ev → Bool
+  | .stopEnd _ => true | .joined _ => true | .startEnd .err => true | e => isPanicEv e
+
+def isAcceptedOf (oid : Nat) : Ev → Bool | .accepted o _ => o == oid | _ => false
+
+/-- "a send into a full mailbox waits": a tell or a stop() that returns Ok had been accepted by the
+    mailbox before it returned (stop() also returns Ok on a mailbox that is already closed, i.e. after
+    the loop has ended: on_stop is over, or the actor's task has failed) -/
+def okMeansAccepted (ev : List Ev) : Bool :=
+  (List.range ev.length).all fun n =>
+    match ev[n]? with
+    | some (.ret oid .ok _) =>
+      (match opOf ev oid with
+       | some (.tell, _, _) => anyBefore (isAcceptedOf oid) ev n
+       | some (.stop, _, _) => anyBefore (isAcceptedOf oid) ev n || anyBefore closedSign ev n
+       | _ => true)
+    | _ => true
+
+def ok (t : Trace) : Bool := bound t && okMeansAccepted t.ev
 end C09
 
 /-! ### C10 — timeouts are exact -/
